@@ -19,7 +19,7 @@ from vf import core
 from vf.gen import species as S
 
 ID = 'C10'
-N = {'quick': 6000, 'thorough': 100000}
+N = {'quick': 4500, 'thorough': 100000}
 NT_RULE = ('reference sets of 1-8 species over 1-5 descriptors (elements or a custom descriptor attribute), '
            'integer compositions, full-rank and rank-deficient matrices, equal T_ref or spread <= 1 K, targets '
            'with present and absent descriptors, T 50-5000 K, histories of append/extend/pop + refit.  '
